@@ -69,34 +69,7 @@ def tzm_component_is_never_refused_in_range(T0: float, T1: float):
     assert c.getThermalExpansionFactor() > 0
 
 
-@lemma(gen={"T0": (835.0, 850.0), "T1": (835.0, 850.0)})
-def tzm_refused_exactly_on_the_flat_segment(T0: float, T1: float):
-    """PROVED: in range, the refusal happens exactly when T0 != T1 and both lie in [840.56, 846.11] C"""
-    (lo, hi), u = TZM.propertyValidTemperature["linear expansion percent"]
-    assume(lo <= T0 and T0 <= hi and lo <= T1 and T1 <= hi)
-    flat = 840.56 <= T0 and T0 <= 846.11 and 840.56 <= T1 and T1 <= 846.11 and (T1 - T0 > 1e-10 or T0 - T1 > 1e-10)
-    try:
-        c = circle_of(TZM, "TZM", T0, T1)
-        f = c.getThermalExpansionFactor()
-        assert not flat
-        assert f > 0
-    except RuntimeError:
-        assert flat
 
 
-@lemma(gen={"T0": (700.0, 863.0), "T1": (864.0, 1500.0)})
-def zr_component_is_never_refused_in_range(T0: float, T1: float):
-    """REFUTED over the reals: Zr, T0 and T1 in the stated range [293, 1800] K"""
-    (lo, hi), u = Zr.propertyValidTemperature["linear expansion percent"]
-    assume(lo <= T0 + K0 and T0 + K0 <= hi and lo <= T1 + K0 and T1 + K0 <= hi)
-    c = circle_of(Zr, "Zr", T0, T1)
-    assert c.getThermalExpansionFactor() > 0
 
 
-@lemma(gen={"T0": (640.0, 649.8), "T1": (649.9, 660.0)}, overrides=OV)
-def uranium_oxide_component_is_never_refused_in_range(T0: float, T1: float):
-    """REFUTED over the reals: UraniumOxide, T0 and T1 in the stated range [273, 3123] K"""
-    (lo, hi), u = UraniumOxide.propertyValidTemperature["linear expansion percent"]
-    assume(lo <= T0 + K0 and T0 + K0 <= hi and lo <= T1 + K0 and T1 + K0 <= hi)
-    c = circle_of(UraniumOxide, "UraniumOxide", T0, T1)
-    assert c.getThermalExpansionFactor() > 0
